@@ -242,3 +242,146 @@ def tmp_vs_pattern(ctx, rule, m):
                   "file is taken for a sample and int(name.split('.')[-2]) fails on resume", std)
     else:
         ctx.und(rule, key, f"temporary name shape `{t}` not modelled", std)
+
+
+def r26_4(ctx, m):
+    """global index of a task's first sample = number of samples held by the lower ranks"""
+    from ..util import cfg_of
+    from ..terms import inline_at
+    ctx.rule("R26.4", "_compute_local_indices: a task's samples get the global indices start..start+n_local-1 with start the SUM OF THE "
+                      "ACTUAL COUNTS of the lower ranks (allgather of the local counts, prefix up to the own rank) - a start computed "
+                      "from the standard partition of the total (shareRange) is only right for lists that happen to be distributed "
+                      "that way; serial lists use 0..n_local-1", floor=2)
+    fi = m.func(SL, "_compute_local_indices", required=False)
+    if fi is None:
+        ctx.error("R26.4: _compute_local_indices missing")
+        return
+    ctx.saw_func(fi)
+    nl, comm = fi.params()[:2]
+    cfg = cfg_of(fi)
+    rd = cfg.reaching_defs(fi.params())
+    rets = [n for n in cfg.nodes if n.kind == "stmt" and isinstance(n.ast, ast.Return)]
+    for n in rets:
+        from ..util import known_atoms
+        serial = any(src(t) in (f"{comm} is None",) and pol for t, pol in known_atoms(cfg, n.id))
+        v = n.ast.value
+        if serial:
+            ctx.check("R26.4", f"{fi.key}::serial: range({nl})", src(v) == f"range({nl})", src(v), fi, n.ast)
+            continue
+        key = f"{fi.key}::start = sum of the lower ranks' counts"
+        if not (isinstance(v, ast.Call) and src(v.func) == "range" and len(v.args) == 2):
+            ctx.und("R26.4", key, f"`{src(v)}` is not range(start, stop)", fi, n.ast)
+            continue
+        st = inline_at(cfg, rd, n.id, v.args[0], depth=4)
+        en = inline_at(cfg, rd, n.id, v.args[1], depth=1)
+        t = src(st).replace(" ", "")
+        if isinstance(st, ast.Name):  # not a plain assignment (e.g. unpacked from a call): look at the defining statement
+            for d in (rd.get(n.id) or {}).get(st.id, ()):
+                dn = cfg.nodes[d]
+                if dn.kind == "stmt" and dn.ast is not None:
+                    t += " <- " + src(dn.ast).replace(" ", "")
+        gathered = f"{comm}.allgather({nl})"
+        good = t in (f"sum({gathered}[:{comm}.Get_rank()])", f"sum({gathered}[:{comm}.rank])", f"sum({gathered}[0:{comm}.Get_rank()])")
+        length_ok = src(v.args[1]).replace(" ", "") in (f"{src(v.args[0])}+{nl}", f"{nl}+{src(v.args[0])}")
+        if good:
+            ctx.check("R26.4", key, length_ok, f"range({src(st)}, {src(en)})", fi, n.ast)
+        elif "shareRange" in t or "allreduce" in t:
+            ctx.bad("R26.4", key, f"start = {src(st)}: derived from the total count, not from the counts the lower ranks actually hold "
+                                  "(tasks with a non-standard share write files with gaps / duplicates)", fi, n.ast)
+        else:
+            ctx.und("R26.4", key, f"start = {src(st)} not recognised", fi, n.ast)
+
+
+def r26_5(ctx, m):
+    """the load path reads the disk every time"""
+    ctx.rule("R26.5", "no memoisation on the load path: the functions that read sample files (load, load_mean, _load_from_disk, "
+                      "_list_local_sample_files and what they call inside the module) carry no cache decorator and consult no "
+                      "module-level container - save() rewrites these files, a remembered content would be stale", floor=4)
+    mod = m.module(SL)
+    containers = {src(st.targets[0]) for st in mod.tree.body if isinstance(st, ast.Assign) and isinstance(st.value, (ast.Dict, ast.List, ast.Set))
+                  or (isinstance(st, ast.Assign) and isinstance(st.value, ast.Call) and src(st.value.func) in ("dict", "list", "set", "OrderedDict", "collections.OrderedDict"))}
+    # call graph inside the module, from the loaders
+    funcs = {}
+    for fi in mod.all_functions:
+        funcs.setdefault(fi.name, []).append(fi)
+    work = [fi for fi in mod.all_functions if fi.name in ("load", "load_mean", "_load_from_disk", "_list_local_sample_files")]
+    seen = []
+    while work:
+        fi = work.pop()
+        if fi in seen:
+            continue
+        seen.append(fi)
+        for c in ast.walk(fi.node):
+            if isinstance(c, ast.Call):
+                nm = call_name(c)
+                if nm in funcs and nm not in ("save", "__init__"):
+                    work.extend(funcs[nm])
+    for fi in sorted(seen, key=lambda f: f.key):
+        ctx.saw_func(fi)
+        decs = [src(d) for d in fi.node.decorator_list]
+        cached = [d for d in decs if "cache" in d.lower() or "memo" in d.lower()]
+        used = sorted({x.id for x in ast.walk(fi.node) if isinstance(x, ast.Name) and x.id in containers})
+        ctx.check("R26.5", f"{fi.key}::reads the disk on every call", not cached and not used,
+                  (f"decorated with {cached}" if cached else f"consults the module-level container(s) {used}") +
+                  ": a file rewritten by a later save() is served from memory", fi)
+
+
+def r26_6(ctx, m):
+    """statistics are statistics of the operator OUTPUTS"""
+    ctx.rule("R26.6", "in SampleListBase the callable `op` is applied to single samples only (the variable of a loop over the local "
+                      "samples / a broadcast sample) or handed on as the `op` argument of another method; it is never applied to an "
+                      "average or a statistic (mean of op(samples) != op(mean of samples) for non-linear op)", floor=5)
+    C = m.cls(SL, "SampleListBase")
+    ctx.saw_class(C)
+    for name, fi in sorted(C.methods.items()):
+        params = fi.params()
+        if "op" not in params:
+            continue
+        ctx.saw_func(fi)
+        ops = {"op"}
+        for st in ast.walk(fi.node):
+            if isinstance(st, ast.Assign) and isinstance(st.value, ast.Call) and call_name(st.value) == "_none_to_id" and src(st.value.args[0]) in ops \
+                    and isinstance(st.targets[0], ast.Name):
+                ops.add(st.targets[0].id)
+        loopvars = set()
+        for lp in ast.walk(fi.node):
+            if isinstance(lp, (ast.For, ast.comprehension)) and isinstance(lp.target, ast.Name) and "local_iterator" in src(lp.iter):
+                loopvars.add(lp.target.id)
+        single = set(loopvars)
+        for st in ast.walk(fi.node):
+            if isinstance(st, ast.Assign) and isinstance(st.targets[0], ast.Name) and "local_item(" in src(st.value):
+                single.add(st.targets[0].id)
+        for c in ast.walk(fi.node):
+            if not isinstance(c, ast.Call):
+                continue
+            direct = isinstance(c.func, ast.Name) and c.func.id in ops
+            wrapped = isinstance(c.func, ast.Call) and call_name(c.func) == "_none_to_id" and c.func.args and src(c.func.args[0]) in ops
+            if direct or wrapped:
+                key = f"{fi.key}::`{short(c, 60)}` applies op to a single sample"
+                if len(c.args) != 1:
+                    ctx.und("R26.6", key, "arity", fi, c)
+                    continue
+                a = c.args[0]
+                t = src(a)
+                is_single = (isinstance(a, ast.Name) and a.id in single) or \
+                    (isinstance(a, ast.Call) and call_name(a) == "_bcast" and a.args and isinstance(a.args[0], ast.Name) and a.args[0].id in single)
+                if is_single:
+                    ctx.ok("R26.6", key, None, fi, c)
+                elif any(w in t for w in (".average(", ".sample_stat(", ".mean", "allreduce_sum(", "sc.")):
+                    ctx.bad("R26.6", key, f"op is applied to `{t}`, a statistic of the samples: the exported value is op(mean), not the mean of op", fi, c)
+                else:
+                    ctx.und("R26.6", key, f"argument `{t}` not recognised as a single sample", fi, c)
+            elif isinstance(c.func, ast.Attribute) and src(c.func.value) == "self" and any(isinstance(x, ast.Name) and x.id in ops for a_ in list(c.args) + [k.value for k in c.keywords] for x in ast.walk(a_)):
+                callee = C.methods.get(c.func.attr)
+                key = f"{fi.key}::`{short(c, 60)}` hands op on"
+                ctx.check("R26.6", key, True if callee is not None and "op" in callee.params() else None, f"callee {c.func.attr}", fi, c)
+
+
+_run_c26 = run
+
+
+def run(ctx):  # noqa: F811
+    _run_c26(ctx)
+    r26_4(ctx, ctx.model)
+    r26_5(ctx, ctx.model)
+    r26_6(ctx, ctx.model)
